@@ -36,4 +36,14 @@ PROPS = {
         "trusted": ["Go's encoding/gob (legacy records): an oracle argument of the model; exercised with records produced by the real encoder", "JSON encoding of the export", "badger"],
         "assumptions": ["op_wf histories (well-formed, fault-free), cfg_wf"],
     },
+    "C07": {
+        "relation": "Corr.CheckChecker.check_kcase (Check() of the real static checker = check of the model with the repaired anchoring), Corr.CheckInst.check_exact with sc_perm := checker_perm (signer requests by name and by key), check_scase (account / wallet manager results = sstep) - tie C07_check_spec, C07_whole_name_match and C07_services_decide_on_resolved_account to the code",
+        "trusted": ["Go's regexp on the modelled syntax (literals, '.', bracket classes, * + ?, groups, alternation, ^ $) - checked differentially through Check(); other RE2 syntax (escapes, flags, \\Q..\\E, a trailing \\$) is outside the model", "names are ASCII (Unicode case folding is outside the model)", "viper's loading of the permission list (the model starts from the ordered entries)", "the wallet library's passphrase handling (observation O5)"],
+        "assumptions": [],
+    },
+    "C18": {
+        "relation": "Corr.CheckChecker.check_lcase (the multiset of (wallet, name, key) returned by the real lister = list_accounts of the model) - ties C18_listing_sound_and_complete / C18_created_account_listed to the code",
+        "trusted": ["Go's regexp on the modelled syntax; the lister's own (case-sensitive, legacy-style) anchoring of the account expression is modelled as it is (observation O3)", "the wallet libraries' account enumeration", "account creation by the real account manager / process service (non-distributed)"],
+        "assumptions": [],
+    },
 }
